@@ -19,6 +19,12 @@ KINDS = {   # name: (C++ type with index type I, model token, category)
  'sic': ('md::strided_slice<I,' + IC + '<I,3>,' + IC + '<I,2>>', 's:3:2'),
  's52': ('md::strided_slice<I,' + IC + '<I,5>,' + IC + '<I,2>>', 's:5:2'),
  'sx':  ('md::strided_slice<I,' + IC + '<I,3>,I>', 's:3:D'),
+'tmt': ('std::tuple<' + IC + '<I,1>,' + IC + '<size_t,5>>', 'p:1:5'),
+ 'pmt': ('std::pair<' + IC + '<size_t,2>,' + IC + '<I,6>>', 'p:2:6'),
+ 'smt': ('md::strided_slice<I,' + IC + '<I,7>,' + IC + '<size_t,3>>', 's:7:3'),
+ 'su1': ('md::strided_slice<I,I,' + IC + '<I,1>>', 's:D:1'),
+ 'ss02': ('md::strided_slice<I,' + IC + '<I,0>,' + IC + '<I,2>>', 's:0:2'),
+ 'su41': ('md::strided_slice<I,' + IC + '<I,4>,' + IC + '<I,1>>', 's:4:1'),
  'ss0': ('md::strided_slice<' + IC + '<I,0>,' + IC + '<I,0>,' + IC + '<I,1>>', 's:0:1'),
 }
 KN = list(KINDS)
